@@ -98,6 +98,10 @@ T2 == [params |-> <<[name |-> "x", opt |-> FALSE], [name |-> "xs", opt |-> FALSE
 T0 == [params |-> <<[name |-> "z", opt |-> TRUE]>>, nsa |-> "", ta |-> "",
        body |-> << Tx("<"), Pr("p16", Bin("elvis", Var("z"), ES(".")), <<>>), Tx(">") >>]
 
+\* data = a FUNCTION result that hands on one of the caller's maps
+\* (augmentMap with an empty / non-empty second map) with a param on top
+AugCall(z, items) == CallE("a.t0", Fn("augmentMap", <<Var("dflt"), [k |-> "map", items |-> items]>>), <<PV("z", ES(z))>>)
+
 \* The two calls take their data from an EXPRESSION that evaluates to one of
 \* the caller's own maps (ternary / elvis over references) and add explicit
 \* value and content params: those must land in a fresh frame, not in the map.
@@ -109,10 +113,14 @@ T3 == [params |-> <<[name |-> "x", opt |-> FALSE], [name |-> "n", opt |-> FALSE]
                     brs |-> <<[c |-> Bin("gt", Var("n"), EI(1)),
                                body |-> <<CallE("a.t2", [k |-> "tern", c |-> Bin("gt", Var("n"), EI(2)), a |-> Var("o"), b |-> Var("dflt")],
                                                 <<PV("x", ES("k"))>>),
+                                          AugCall("A", <<>>),
                                           Pr("p8", Fn("vmax2", <<Var("n"), EI(2)>>), <<>>)>>]>>,
                     els |-> Body(<<CallE("a.t2", Bin("elvis", Var("o"), Var("dflt")),
                                          <<PV("x", ES("k")),
-                                           PC("z", <<Tx("c"), Pr("p15", Var("n"), <<>>)>>)>>)>>)],
+                                           PC("z", <<Tx("c"), Pr("p15", Var("n"), <<>>)>>)>>),
+                                   AugCall("B", <<>>),
+                                   AugCall("C", <<[key |-> "q", val |-> EI(1)]>>),
+                                   CallE("a.t0", [k |-> "map", items |-> <<[key |-> "z", val |-> ES("L")]>>], <<PV("z", ES("D"))>>)>>)],
                    [k |-> "letc", name |-> "w", body |-> <<Tx("w"), Pr("p9", Var("n"), <<>>)>>],
                    Pr("p10", Var("w"), <<>>) >>]
 
